@@ -953,6 +953,18 @@ fn parse_number(cursor: &mut Cursor) -> Result<Option<usize>, Error> {
             )
             .with_source(e)
         }));
+        // widths and precisions are handed to `format!`, which supports at most
+        // `u16::MAX` digits (exponent notation needs one more than the precision),
+        // and padding allocates that many bytes.
+        if num >= u16::MAX as usize {
+            return Err(Error::new(
+                ErrorKind::InvalidOperation,
+                format!(
+                    "number too large in the format string at offset {}",
+                    cursor.position()
+                ),
+            ));
+        }
         Ok(Some(num))
     }
 }
